@@ -1216,6 +1216,7 @@ func parsePageSelectors(rule pa.QualifiedRule) (out []pageSelector) {
 						A:     nthValues[0],
 						B:     nthValues[1],
 						Group: group,
+						zero:  nthValues[0] == 0 && nthValues[1] == 0,
 					}
 					// TODO: specificity is not specified yet
 					// https://github.com/w3c/csswg-drafts/issues/3524
